@@ -200,6 +200,7 @@ func runC17(c *Ctx) {
 	// ---- R6 ------------------------------------------------------------------------------------
 	c.Rule("R6", "injective client binding (no two consumers share a client): see C13.R5; here: both binding sites bind the id being launched, and MakeConsumerGenesis additionally requires the connection's client to carry the consumer's chain id", 3)
 	checkBindingPairs(c, false)
+	checkAccessorAgreement(c, "ck", "ProviderClientIDKey", "ProviderChannelIDKey", "PortKey")
 	if f := c.Fn("pk.Keeper.MakeConsumerGenesis"); f != nil {
 		if set := c.one(f, false, "pk.Keeper.SetConsumerClientId"); set != nil {
 			chainEq := AEq("client chain id == consumer chain id", PField(PAny(), "ChainId"), PCall("pk.Keeper.GetConsumerChainId", 0, nil, nil, PParam("consumerId")))
